@@ -52,12 +52,12 @@ Definition transform_string (lower : bool) (s : string) : string :=
 
 (* regex.find_iter with \b\w\w+\b on ASCII text: the maximal runs of word characters of length >= 2 *)
 Definition flush (cur : list ascii) : list string :=
-  if (2 <=? length cur)%nat then [string_of_list_ascii (rev cur)] else [].
+  if (2 <=? List.length cur)%nat then [string_of_list_ascii (rev cur)] else [].
 
 Fixpoint tok_go (s : string) (cur : list ascii) : list string :=
   match s with
   | EmptyString => flush cur
-  | String c r => if is_word c then tok_go r (c :: cur) else flush cur ++ tok_go r []
+  | String c r => if is_word c then tok_go r (c :: cur) else (flush cur ++ tok_go r [])%list
   end.
 Definition tokenize (s : string) : list string := tok_go s [].
 
@@ -71,13 +71,13 @@ Definition push_word (l : list string) (item : string) (j : nat) : string :=
 Definition ngram_items (nmin nmax : nat) (l : list string) (index : nat) : option (list string) :=
   if (nmax =? 1)%nat then Some [nth index l ""]
   else
-    let len := length l in
+    let len := List.length l in
     let min_end := (index + nmin)%nat in
     if (len <? min_end)%nat then None
     else
       let max_end := Nat.min (index + nmax) len in
       let item0 := fold_left (push_word l) (seq (index + 1) (min_end - (index + 1))) (nth index l "") in
-      Some (fst (fold_left (fun st j => let it := push_word l (snd st) j in (fst st ++ [it], it))
+      Some (fst (fold_left (fun st j => let it := push_word l (snd st) j in ((fst st ++ [it])%list, it))
                            (seq min_end (max_end - min_end)) ([item0], item0))).
 
 (* NGramListIntoIterator::next, unrolled: stops at the end of the list or at the first None *)
@@ -85,7 +85,7 @@ Fixpoint ngram_iter (nmin nmax : nat) (l : list string) (index fuel : nat) : lis
   match fuel with
   | O => []
   | S f =>
-      if (length l <=? index)%nat then []
+      if (List.length l <=? index)%nat then []
       else match ngram_items nmin nmax l index with
            | Some items => items :: ngram_iter nmin nmax l (S index) f
            | None => []
@@ -94,7 +94,7 @@ Fixpoint ngram_iter (nmin nmax : nat) (l : list string) (index fuel : nat) : lis
 
 (* list.into_iter().flatten() *)
 Definition ngrams (nmin nmax : nat) (toks : list string) : list string :=
-  concat (ngram_iter nmin nmax toks 0 (length toks)).
+  List.concat (ngram_iter nmin nmax toks 0 (List.length toks)).
 
 (** * countgrams/mod.rs: the vocabulary map *)
 
@@ -129,7 +129,7 @@ Fixpoint bump (w : string) (len : nat) (m : vmap) : vmap :=
 
 (* read_document_into_vocabulary, from the token list on *)
 Definition read_doc (nmin nmax : nat) (m : vmap) (toks : list string) : vmap :=
-  fold_left (fun m w => bump w (length m) m) (dedup (ngrams nmin nmax toks)) m.
+  fold_left (fun m w => bump w (List.length m) m) (dedup (ngrams nmin nmax toks)) m.
 
 Definition read_docs (nmin nmax : nat) (docs : list (list string)) : vmap :=
   fold_left (read_doc nmin nmax) docs [].
@@ -200,11 +200,11 @@ Definition filter_vocab (s : settings) (m : vmap) (n_documents : nat) : vmap :=
 
 (* CountVectorizerValidParams::fit up to (not including) hashmap_to_vocabulary *)
 Definition fit_map (s : settings) (docs : list (list string)) : vmap :=
-  filter_vocab s (read_docs (s_nmin s) (s_nmax s) docs) (length docs).
+  filter_vocab s (read_docs (s_nmin s) (s_nmax s) docs) (List.length docs).
 
 (* fit_vocabulary: vocabulary.entry(item).or_insert((len, 1)) *)
 Definition fixed_map (words : list string) : vmap :=
-  fold_left (fun m w => if mem w (keys m) then m else m ++ [(w, (length m, 1%nat))]) words [].
+  fold_left (fun m w => if mem w (keys m) then m else (m ++ [(w, (List.length m, 1%nat))])%list) words [].
 
 (* hashmap_to_vocabulary on the enumeration [enum] of the map: *idx = vec.len(); vec.push(word) *)
 Fixpoint reindex_from (pos : nat) (enum : vmap) : vmap * list string :=
@@ -230,11 +230,11 @@ Definition analyze (nmin nmax : nat) (m : vmap) (toks : list string) : list nat 
                              | Some (i, _) => upd row i S
                              | None => row
                              end)
-            (ngrams nmin nmax toks) (repeat 0%nat (length m)).
+            (ngrams nmin nmax toks) (repeat 0%nat (List.length m)).
 
 (* the non-zero entries in increasing column order: one CSR row *)
 Definition sparsify (row : list nat) : list (nat * nat) :=
-  filter (fun p => (0 <? snd p)%nat) (combine (seq 0 (length row)) row).
+  filter (fun p => (0 <? snd p)%nat) (combine (seq 0 (List.length row)) row).
 
 Definition count_rows (nmin nmax : nat) (m : vmap) (docs : list (list string)) : list (list (nat * nat)) :=
   map (fun d => sparsify (analyze nmin nmax m d)) docs.
@@ -260,12 +260,12 @@ Definition idf (mt : method) (n df : nat) : F :=
 
 (* apply_tf_idf: n = number of rows of the transformed corpus *)
 Definition apply_tfidf (mt : method) (rows : list (list (nat * nat))) (dfs : list nat) : list (list (nat * F)) :=
-  let idfs := map (idf mt (length rows)) dfs in
+  let idfs := map (idf mt (List.length rows)) dfs in
   map (map (fun p => (fst p, mul o (ofn (snd p)) (nth (fst p) idfs (zero o))))) rows.
 
 Definition tfidf_rows (mt : method) (nmin nmax : nat) (m : vmap) (docs : list (list string)) : list (list (nat * F)) :=
   let rows := count_rows nmin nmax m docs in
-  apply_tfidf mt rows (doc_freqs (length m) rows).
+  apply_tfidf mt rows (doc_freqs (List.length m) rows).
 End TfIdf.
 
 (** * Reference definitions (the "naive recount"): what the property says, written without any of
@@ -281,11 +281,11 @@ Definition join_sp (l : list string) : string :=
 Definition window (toks : list string) (i n : nat) : string := join_sp (firstn n (skipn i toks)).
 
 Definition windows_at (nmin nmax : nat) (toks : list string) (i : nat) : list string :=
-  flat_map (fun n => if (i + n <=? length toks)%nat then [window toks i n] else [])
+  flat_map (fun n => if (i + n <=? List.length toks)%nat then [window toks i n] else [])
            (seq nmin (S nmax - nmin)).
 
 Definition ngrams_ref (nmin nmax : nat) (toks : list string) : list string :=
-  flat_map (windows_at nmin nmax toks) (seq 0 (length toks)).
+  flat_map (windows_at nmin nmax toks) (seq 0 (List.length toks)).
 
 Fixpoint occ (w : string) (l : list string) : nat :=
   match l with
@@ -295,12 +295,12 @@ Fixpoint occ (w : string) (l : list string) : nat :=
 
 (* number of documents (given as n-gram lists) that contain w *)
 Definition df_ref (w : string) (grams : list (list string)) : nat :=
-  length (filter (mem w) grams).
+  List.length (filter (mem w) grams).
 
 Definition stopped (s : settings) (w : string) : bool :=
   match s_stop s with None => false | Some sw => mem w sw end.
 
 Definition admitted (s : settings) (grams : list (list string)) (w : string) : bool :=
   let df := N.of_nat (df_ref w grams) in
-  let n := length grams in
+  let n := List.length grams in
   (N.leb (abs_bound (s_mindf s) n) df && N.leb df (abs_bound (s_maxdf s) n) && negb (stopped s w))%bool.
